@@ -319,6 +319,8 @@ PROPS = {
     ),
     "C16": dict(
         level="proof",
+        extra_lean_targets=["LdpcV.Props.C16V"],
+        extra_prop_files=["LdpcV/Props/C16V.lean"],
         trusted_base=[KERNEL, CORR,
                       "the pseudorandom generator (ChaCha8, rand's choose / choose_multiple) is NOT modelled: lean/LdpcV/Model/Constructions.lean takes the sequence of "
                       "random picks as an argument and rejects picks the Rust selection rule could not have produced; theorems quantify over every pick sequence. "
@@ -335,7 +337,9 @@ PROPS = {
         assumptions=COMMON_ASSUME,
         partial=["RNG reproducibility, 'different seeds explore different choices' and the rayon seed search are observed, not proved",
                  "Err outcomes cannot be replayed without the choice trace",
-                 "validator completeness (every model run is accepted by mnAccepts / pegAccepts) is not proved; it is exercised on every implementation result"],
+                 "validators vs models (C16V): completeness proved for both (every model run, whatever the picks, backtracking and girth retries, is accepted); soundness "
+                 "proved as `_partial` with exactly the missing hypothesis (PEG: not the degenerate 0-row case; MacKay-Neal: row lists increasing - the validator ignores "
+                 "adjacency order), the two original statements are kept as NOT-A-THEOREM with their counterexamples"],
     ),
     "C19": dict(
         level="proof",
